@@ -54,6 +54,7 @@ type File struct {
 	Format string `json:"format"` // uri | uripost | raw | jsonline
 	Items  []Item `json:"items"`
 	Layout Layout `json:"layout"`
+	Big    bool   `json:"big,omitempty"` // generated to exceed the readers' buffer sizes
 }
 
 // Want is what the provider must deliver for one entry.
@@ -429,6 +430,9 @@ type GenOpts struct {
 	MinEntries, MaxEntries int
 	Tags                   []string // tag pool (for chosencases checks)
 	NoLayout               bool
+	// AllowBig: one file in eight is made larger than the readers' buffers (4 KiB bufio, 64 KiB scanner
+	// tokens are NOT exceeded per line): bodies blown up to 1-20 KiB by repetition, uri files to 60-200 lines.
+	AllowBig bool
 }
 
 // Gen draws a file in the given format.
@@ -480,6 +484,42 @@ func Gen(t *rapid.T, format string, o GenOpts) File {
 			e.Headers = genHeaders(t)
 		}
 		f.Items = append(f.Items, Item{Entry: &e})
+	}
+	if o.AllowBig && rapid.IntRange(0, 7).Draw(t, "big") == 0 {
+		f.Big = true
+		if format == "uri" {
+			// many lines: repeat the drawn items, entries made distinct by a leading path segment
+			base := f.Items
+			total := rapid.IntRange(60, 200).Draw(t, "bigLines")
+			for i := len(base); i < total; i++ {
+				it := base[i%len(base)]
+				if it.Entry != nil {
+					e := *it.Entry
+					e.URI = fmt.Sprintf("/r%d", i) + e.URI
+					it = Item{Entry: &e}
+				}
+				f.Items = append(f.Items, it)
+			}
+		} else {
+			for _, it := range f.Items {
+				if it.Entry == nil || (format == "raw" && (it.Entry.Method == "GET" || it.Entry.Method == "HEAD")) {
+					continue
+				}
+				if rapid.IntRange(0, 2).Draw(t, "bigBody") == 0 {
+					continue
+				}
+				chunk := it.Entry.Body
+				if len(chunk) == 0 {
+					chunk = []byte(genToken(t, "chunk", 1, 12) + "\n")
+				}
+				size := rapid.SampledFrom([]int{1000, 3000, 4000, 4096, 4200, 8192, 9000, 20000}).Draw(t, "bigSize")
+				size += rapid.IntRange(-40, 40).Draw(t, "bigJitter")
+				it.Entry.Body = bytes.Repeat(chunk, size/len(chunk)+1)[:size]
+				if format == "jsonline" {
+					it.Entry.Body = bytes.ToValidUTF8(it.Entry.Body, []byte("?"))
+				}
+			}
+		}
 	}
 	if dirs && rapid.IntRange(0, 5).Draw(t, "trailingDir") == 0 {
 		f.Items = append(f.Items, Item{Dir: &KV{K: "X-Trailing", V: "1"}})
